@@ -45,8 +45,7 @@ func (def *structAsContainer) clear(m meta.Definition) error {
 	if err != nil {
 		return err
 	}
-	h.clear()
-	return nil
+	return h.clear()
 }
 
 func (def *structAsContainer) getHandler(m meta.Definition) (reflectFieldHandler, error) {
@@ -232,6 +231,15 @@ func (fdef *reflectByField) elem() reflect.Value {
 }
 
 func (fdef *reflectByField) clear() error {
+	if fdef.f.Name == "" {
+		// no field, the value lives behind accessor methods: it is cleared by handing the setter
+		// the zero value of what it takes. (FieldByIndex of no index is the struct itself,
+		// zeroing that would wipe every other field with it)
+		if fdef.setter.Name == "" {
+			return fmt.Errorf("%s has no recognized way to clear value", fdef.m.Ident())
+		}
+		return fdef.set(reflect.Zero(fdef.setter.Type.In(1)))
+	}
 	fdef.elem().FieldByIndex(fdef.f.Index).SetZero()
 	return nil
 }
